@@ -1940,7 +1940,7 @@ def const_expr(r, depth, strings=False, vars=()):
         # a chain variable +/- constant +/- constant (left to right): the first
         # step alone may overflow where the sum of the constants would not
         v = ['var', r.choice(vars)]
-        ty = r.choice('%&')
+        ty = name_type(v[1]) if name_type(v[1]) in ('%', '&') and r.random() < 0.8 else r.choice('%&')
         c1 = r.choice((1, 2, 100, 10000, 32767))
         c2 = r.choice((c1, c1, 1, c1 + 1))
         o1, o2 = r.choice((('+', '-'), ('-', '+'), ('+', '+'), ('-', '-')))
